@@ -97,6 +97,17 @@ def run(c: Check):
                         lambda k: identgen.g_icase(k["export"], k["ops"], k["answers"]), "check_case", shard=60)
     c.extra["disagreeing_cases"] = [dict(desc=coq_cases[i]["desc"], ops=coq_cases[i]["ops"],
                                          answers=coq_cases[i]["answers"]) for i in bad[:5]]
+    # directed probe outside the modelled domain: configuration-valued defaults (compared through TypeConfig.__eq__)
+    pr = run_impl("drive_cfgdefault.py", {}, timeout=300)
+    c.count("probe:config-valued-default")
+    if pr["c02_same_as_default"] != pr["c02_default"]:
+        c.violation("C02:neutral-edit-changes-identifier:explicit-default:config-valued-default",
+                    "a sub-configuration explicitly set to (a copy of) its configuration-valued default changes the identifier",
+                    dict(probe="harness/drive_cfgdefault.py", got=pr))
+    if pr["c02_meta_param_differs"] != pr["c02_default"]:
+        c.violation("C02:neutral-edit-changes-identifier:meta-param-under-config-valued-default",
+                    "Holder(sub=A(x=1, verbose=True)) and Holder() differ although verbose is a Meta parameter and A(x=1) is the default",
+                    dict(probe="harness/drive_cfgdefault.py", got=pr))
     c.level_assumptions = [
         "SHA-256 is a parameter H of every theorem; run with the Gallina SHA-256 validated against hashlib by the correspondence",
         "tags, explicit/token dependencies, launcher, workspace and run mode are not part of the model's node at all "
